@@ -702,4 +702,128 @@ def correctToken (sugs : Except Err (List (List Nat))) (w : List Nat) : Except E
     | [] => w
     | s :: _ => s
 
+/-! ## spelling.py - `MultiCorrector` -/
+
+/-- `if sug in seen: seen[sug] = op(seen[sug], score) else: seen[sug] = score` on the dict `seen`
+    (kept in insertion order, as Python dicts are). -/
+def seenUpdate (op : Rat → Rat → Rat) (score : Rat) (sug : List Nat) :
+    List (List Nat × Rat) → List (List Nat × Rat)
+  | [] => [(sug, score)]
+  | (s, sc) :: rest =>
+    if s = sug then (s, op sc score) :: rest else (s, sc) :: seenUpdate op score sug rest
+
+/-- `MultiCorrector._suggestions`, given the `(score, suggestion)` items each sub-corrector's
+    `_suggestions` yields (in the order of `self.correctors`): `((score, sug) for sug, score in
+    iteritems(seen))`. -/
+def multiSuggestions (op : Rat → Rat → Rat) (itemss : List (List (Rat × List Nat))) :
+    List (Rat × List Nat) :=
+  (itemss.flatten.foldl (fun seen it => seenUpdate op it.1 it.2 seen) []).map fun x => (x.2, x.1)
+
+/-- The sub-correctors' generators are consumed one after the other; the first exception
+    propagates. -/
+def collectSubs : List (Except Err (List (Rat × List Nat))) → Except Err (List (List (Rat × List Nat)))
+  | [] => .ok []
+  | .error e :: _ => .error e
+  | .ok x :: rest => (collectSubs rest).map fun r => x :: r
+
+/-- `MultiCorrector(correctors, op).suggest(text, limit, maxdist, prefix)` given what the
+    sub-correctors' `_suggestions` do. -/
+def multiSuggest (op : Rat → Rat → Rat) (subs : List (Except Err (List (Rat × List Nat)))) (limit : Nat) :
+    Except Err (List (List Nat)) :=
+  match collectSubs subs with
+  | .error e => .error e
+  | .ok itemss => suggestItems (multiSuggestions op itemss) limit
+
+/-- `ReaderCorrector._suggestions` on top of a `terms_within` result. -/
+def readerItems (tw : Except Err (List (List Nat))) (freq : List Nat → Nat) (maxdist : Nat) :
+    Except Err (List (Rat × List Nat)) :=
+  tw.map fun terms => suggestions terms freq maxdist
+
+/-- `ListCorrector._suggestions`. -/
+def listItems (wordlist : List (List Nat)) (w : List Nat) (maxdist p : Nat) : Except Err (List (Rat × List Nat)) :=
+  listSuggestionsLoop wordlist w p ((List.range maxdist).map (· + 1)) []
+
+/-! ## reading.py - `MultiReader` term merging and `expand_prefix` (the input of the generic path) -/
+
+/-- `SegmentReader.terms_from(fieldname, prefix)` seen for one field: the cursor is placed on the
+    first term `≥ prefix` of the segment's (sorted) term list and iterated to its end. -/
+def termsFrom (lex : List (List Nat)) (pre : List Nat) : List (List Nat) :=
+  lex.dropWhile fun t => lexLt t pre
+
+/-- An entry `(term, it)` of the list `current` of `MultiReader._merge_terms`: the head term of an
+    iterator and what the iterator still holds. -/
+abbrev Cur := List Nat × List (List Nat)
+
+/-- The inner `while active and current[0][0] == term:` loop seen from one iterator: `next(it)` is
+    called as long as the iterator's head equals `term` (`heapreplace` puts it back on top);
+    `none` = `StopIteration` (`heappop`, `active -= 1`). -/
+def advance (term : List Nat) : List (List Nat) → Option Cur
+  | [] => none
+  | t :: rest => if t == term then advance term rest else some (t, rest)
+
+/-- `current[0][0]` of the heap: the smallest head term (`heapq` itself is trusted). -/
+def minTerm : Cur → List Cur → List Nat
+  | c, [] => c.1
+  | c, c' :: rest => let m := minTerm c' rest; if lexLt m c.1 then m else c.1
+
+/-- The `while active:` loop of `MultiReader._merge_terms`: peek at the smallest head term, advance
+    every iterator standing on it, yield it.  Every round consumes at least one term of an
+    iterator, so the number of terms still held (plus heads) bounds the rounds: that is the fuel
+    `mergeTerms` passes (`WM.Lev.mergeLoop_spec` shows it is never used up). -/
+def mergeLoop : Nat → List Cur → Except Err (List (List Nat))
+  | _, [] => .ok []
+  | 0, _ :: _ => .error .fuel
+  | fuel + 1, c :: cs =>
+    let term := minTerm c cs
+    let cur' := (c :: cs).filterMap fun x => if x.1 == term then advance term x.2 else some x
+    (mergeLoop fuel cur').map fun r => term :: r
+
+/-- `try: term = next(it) except StopIteration: continue; current.append((term, id(it)))`. -/
+def curHead : List (List Nat) → Option Cur
+  | [] => none
+  | t :: r => some (t, r)
+
+/-- `MultiReader._merge_terms(iterlist)`: iterators that are empty at the start are left out; a
+    single active iterator is passed through unchanged; otherwise the heap merge, which yields
+    every distinct term once. -/
+def mergeTerms (its : List (List (List Nat))) : Except Err (List (List Nat)) :=
+  match its.filterMap curHead with
+  | [(t, r)] => .ok (t :: r)
+  | current => mergeLoop ((current.map fun c => c.2.length + 1).sum) current
+
+/-- `MultiReader.terms_from(fieldname, prefix)` (one field): the merge of the segments'
+    `terms_from`. -/
+def termsFromMulti (segs : List (List (List Nat))) (pre : List Nat) : Except Err (List (List Nat)) :=
+  mergeTerms (segs.map fun lex => termsFrom lex pre)
+
+/-- The loop of `IndexReader.expand_prefix`: `for fn, text in self.terms_from(fieldname, prefix):
+    if fn != fieldname or not text.startswith(prefix): return; yield text` - it *stops* at the
+    first term that does not start with the prefix. -/
+def expandPrefixOf (terms : List (List Nat)) (pre : List Nat) : List (List Nat) :=
+  terms.takeWhile fun t => pre.isPrefixOf t
+
+/-- `MultiReader.expand_prefix(fieldname, prefix)`. -/
+def expandPrefixMulti (segs : List (List (List Nat))) (pre : List Nat) : Except Err (List (List Nat)) :=
+  (termsFromMulti segs pre).map fun terms => expandPrefixOf terms pre
+
+/-- `IndexReader.terms_within` of a `MultiReader` over the segment term lists `segs`:
+    `for btext in self.expand_prefix(fieldname, text[:prefix])` and the distance filter. -/
+def termsWithinMulti (segs : List (List (List Nat))) (w : List Nat) (d p : Nat) :
+    Except Err (List (List Nat)) :=
+  match expandPrefixMulti segs (w.take p) with
+  | .error e => .error e
+  | .ok terms => baseLoop w d terms
+
+/-- `FuzzyTerm(field, w, maxdist=d, prefixlength=p).docs(searcher)` (`Query.docs`, also
+    `Query.matcher(searcher)`) on the *top-level* searcher of an index: `MultiTerm.matcher` calls
+    `_btexts(searcher.reader())` once, against the index reader.  With one segment that is the
+    segment reader (automaton path); with several it is a `MultiReader`, i.e. the generic
+    `terms_within` over the merged term list, and the union of the (multi-segment) term matchers
+    yields the global numbers of the documents that contain one of those terms. -/
+def fuzzyDocsTop (w : List Nat) (d p : Nat) (segs : List (List (List Nat) × List (List (List Nat)))) :
+    Except Err (List Nat) :=
+  match segs with
+  | [(lex, docs)] => fuzzyDocsSeg lex docs w d p
+  | _ => (termsWithinMulti (segs.map (·.1)) w d p).map (fuzzyDocsOf (segs.flatMap (·.2)))
+
 end WM.Lev
